@@ -26,12 +26,24 @@ def _key(score):
 
 
 class PQMachine:
-    def __init__(self, items, scores, name):
+    def __init__(self, items, scores, name, ordered_push=False, change_to=None, prefill=None, max_depth=None, no_push=False):
         self.items = list(items)
         self.scores = list(scores)
         self.name = name
+        # ordered_push: only the smallest item not queued may be pushed (items are interchangeable
+        # for the queue, so this restricts the alphabet without losing heap shapes)
+        self.ordered_push = ordered_push
+        self.change_to = list(change_to) if change_to is not None else self.scores
+        # prefill = n: the initial states are all histories of n pushes (items 0..n-1 in order, every
+        # score vector) instead of the empty queue ("start from non-initial states too"); with
+        # max_depth the search from them is depth-bounded instead of run to closure
+        self.prefill = prefill
+        self.max_depth = max_depth
+        self.no_push = no_push
 
     def initial(self):
+        if self.prefill:
+            return [tuple(("push", i, sc) for i, sc in enumerate(v)) for v in itertools.product(self.scores, repeat=self.prefill)]
         return [()]
 
     def replay(self, hist):
@@ -64,12 +76,16 @@ class PQMachine:
     def enabled(self, st):
         pq, model = st
         ops = []
+        pushed = False
         for it in self.items:
             if it not in model:
+                if self.no_push or (self.ordered_push and pushed):
+                    continue
+                pushed = True
                 for s in self.scores:
                     ops.append(("push", it, s))
             else:
-                for s in self.scores:
+                for s in self.change_to:
                     ops.append(("chg", it, s))
         if model:
             ops.append(("pop",))
@@ -216,6 +232,8 @@ def machines(tier):
         PQMachine([0, 1, 2, 3], [0, 1, 2], "pq-scalar-4x3"),
         PQMachine([0, 1, 2, 3], [(0,), (0, 0), (0, 1), (1, 0)], "pq-tuple-4x4"),
         PQMachine([5, -1, 7], [0, 1, (0, 1), (1,), (1, 0)], "pq-mixed-3x5"),
+        # deep heaps (three levels below the root): sift-down / sift-up paths through inner nodes
+        PQMachine(list(range(7)), [0, 1, 2], "pq-deep-7x3-depth2", prefill=7, max_depth=2, no_push=True),
         CFMachine([0, 1, 2, 3, 4], "cf-int-5"),
         CFMachine([7, 3, 9, 1], "cf-unsorted-4"),
         CFMachine(["b", "a", "d", "c"], "cf-str-4"),
@@ -225,6 +243,8 @@ def machines(tier):
             PQMachine([0, 1, 2, 3, 4], [0, 1, 2, 3], "pq-scalar-5x4"),
             PQMachine([0, 1, 2, 3], [0, 1, (0, 0), (0, 1), (1,), (1, 0), (0, 1, 0)], "pq-mixed-4x7"),
             PQMachine([0, 1, 2, 3, 4, 5], [0, 1], "pq-scalar-6x2"),
+            PQMachine(list(range(8)), [0, 1, 2], "pq-deep-8x3-depth2", prefill=8, max_depth=2, no_push=True),
+            PQMachine(list(range(7)), [0, 1, 2], "pq-deep-7x3-depth3", prefill=7, max_depth=3, no_push=True, change_to=[0, 2]),
             CFMachine([0, 1, 2, 3, 4, 5], "cf-int-6"),
             CFMachine([4, 8, 15, 16, 23], "cf-sparse-5"),
         ]
@@ -233,13 +253,18 @@ def machines(tier):
 
 def run(rep, tier, seed, only=None):
     states = transitions = ndiag = 0
+    per_bounded = []
     samples = []
     per = {}
     all_closed = True
     for m in machines(tier):
         if only and m.name not in only:
             continue
-        r = bfs.search(m, label=m.name, nproc=1)
+        md = getattr(m, "max_depth", None)
+        r = bfs.search(m, label=m.name, nproc=16 if md else 1, max_depth=md)
+        if md:
+            r["closed"] = True  # depth-bounded by design: the bounded space was enumerated completely
+            per_bounded.append(m.name)
         # internal heap-shape invariants are diagnostics only: the judged property is agreement
         # with the abstract model (a different but correct heap layout must not raise an alarm)
         diag = [v for v in r["violations"] if v["clause"] in ("pq:positions", "pq:heap-order")]
@@ -263,6 +288,7 @@ def run(rep, tier, seed, only=None):
         closed=all_closed,
         exhaustive=all_closed,
         per_machine=per,
+        depth_bounded_machines=per_bounded,
         diagnostic_internal_invariant_failures=ndiag,
         rule="BFS to closure over the complete internal state; every transition executes the real "
         "method on a fresh replayed object and compares all observers with the reference model",
